@@ -169,6 +169,7 @@ class Interp:
         self._fresh = itertools.count(1)
         self.static_depth = 0
         self.unsupported = {}
+        self.key_poly = {}        # canonical key of a compared polynomial -> the polynomial (for rules that use equalities)
         self.unresolved_calls = {}
         self.resolved_calls = 0
         # per path
@@ -337,6 +338,7 @@ class Interp:
         flip = lead < 0
         q = -p if flip else p
         key = "sign:" + q.key()
+        self.key_poly[q.key()] = q
         opts = [1, -1, 0]
         if self.sign_mode == "sign+nan" and any(self.nanable(s) for s in q.symbols()):
             opts = [1, -1, 0, None]
@@ -361,6 +363,7 @@ class Interp:
         if flip:
             opn = {"Lt": "Gt", "LtE": "GtE", "Gt": "Lt", "GtE": "LtE"}.get(opn, opn)
         # q opn 0
+        self.key_poly[q.key()] = q
         if opn in ("Eq", "NotEq"):
             r = self.decide("cmp:Eq:" + q.key(), [False, True])
             return r if opn == "Eq" else not r
